@@ -63,7 +63,9 @@ class V(object):
 
 COQTY = {"Z": "Z", "B": "bool", "OTR": "option (Z * Z)", "TR": "(Z * Z)", "ONAME": "option (list Z)",
          "CHARS": "list Z", "OZ": "option Z", "COMP": "comp", "DTF": "(Z * bool)", "RD": "rdelta",
-         "ATTR": "tzattr", "DELTA": "delta", "OWD": "option (Z * Z)", "DARG": "darg", "ZONE": "zone"}
+         "ATTR": "tzattr", "DELTA": "delta", "OWD": "option (Z * Z)", "DARG": "darg", "ZONE": "zone",
+         "ODT": "option Z", "OCOMP": "option comp"}
+LOCAL_HINTS = {"lastcompdt": "ODT", "lastcomp": "OCOMP"}
 
 # attributes an __init__ writes on self -> (type, field of the zone record or None when not stored in it)
 SLOTS = {"_std_abbr": "ONAME", "_dst_abbr": "ONAME", "_std_offset": "Z", "_dst_offset": "Z",
@@ -122,6 +124,7 @@ METHODS = [
     ("tz/tz.py", "tzlocal", "tzname", "gen_l_tzname", "local", [("dt", "DTF")], "CHARS"),
     ("tz/tz.py", "tzical", "_parse_offset", "gen_parse_offset", None, [("s", "CHARS")], "Z"),
     ("tz/tz.py", "_tzicalvtz", "_find_compdt", "gen_find_compdt", "ical", [("comp", "COMP"), ("dt", "DTF")], "OZ"),
+    ("tz/tz.py", "_tzicalvtz", "_find_comp", "gen_select_comp", "ical", [("dt", "DTF")], "COMP"),
     ("tz/tz.py", "_tzicalvtz", "utcoffset", "gen_ic_utcoffset", "ical", [("dt", "DTF")], "Z"),
     ("tz/tz.py", "_tzicalvtz", "dst", "gen_ic_dst", "ical", [("dt", "DTF")], "Z"),
     ("tz/tz.py", "_tzicalvtz", "tzname", "gen_ic_tzname", "ical", [("dt", "DTF")], "ONAME"),
@@ -137,7 +140,8 @@ SELF_CALLS = {
     "local": {"_naive_is_dst": ("gen_l_naive_is_dst libc std alt daylight sn dn %s", ["DT"], "B", True),
               "is_ambiguous": ("gen_l_is_ambiguous libc std alt daylight sn dn %s", ["DT"], "B", True),
               "_isdst": ("gen_l_isdst libc std alt daylight sn dn %s %s", ["DTF"], "B", True)},
-    "ical": {"_find_comp": ("comp_at cs %s %s", ["DTF"], "COMP", False)},
+    "ical": {"_find_comp": ("comp_at cs %s %s", ["DTF"], "COMP", False),
+             "_find_compdt": ("gen_find_compdt cs %s %s %s", ["COMP", "DTF"], "ODT", True)},
     "offsets": {},
     "init": {},
 }
@@ -184,6 +188,8 @@ class Tr(object):
             return V("(negb (%s))" % " && ".join("is_none kw_%s" % k for k in self.kw_seen), "B")
         if v.ty == "CHARS":
             return V("(negb (match %s with [] => true | _ => false end))" % v.term, "B", v.pure)
+        if v.ty in ("ODT", "OCOMP") and v.pure:        # datetimes and component objects are always truthy
+            return V("(negb (is_none %s))" % v.term, "B")
         if v.ty == "DELTA" and v.pure:
             return V("(delta_bool %s)" % v.term, "B")
         raise TranslateError("truth value of type %s" % v.ty)
@@ -252,6 +258,26 @@ class Tr(object):
         if isinstance(e, ast.Compare):
             return self.compare(e, env)
         if isinstance(e, ast.BoolOp):
+            first = e.values[0]
+            restv = e.values[1:]
+            rest_e = restv[0] if len(restv) == 1 else ast.BoolOp(op=e.op, values=restv)
+            nm = None
+            if isinstance(e.op, ast.And) and isinstance(first, ast.Name):
+                nm, some_goes_on = first.id, True
+            elif isinstance(e.op, ast.Or) and isinstance(first, ast.UnaryOp) and isinstance(first.op, ast.Not) \
+                    and isinstance(first.operand, ast.Name):
+                nm, some_goes_on = first.operand.id, True
+            if nm is not None and nm in env and env[nm].ty in ("ODT", "OCOMP") and env[nm].pure:
+                # `X and R`: R is evaluated with X not None;  `not X or R`: likewise
+                fresh = "s%d_" % len(self.tmp)
+                self.tmp.append(fresh)
+                env2 = dict(env)
+                env2[nm] = V(fresh, "DT" if env[nm].ty == "ODT" else "COMP", True, None)
+                r = self.truth(self.expr(rest_e, env2))
+                if not r.pure:
+                    raise TranslateError("impure operand under a narrowed optional")
+                none_val = "false" if isinstance(e.op, ast.And) else "true"
+                return V("(match %s with Some %s => %s | None => %s end)" % (env[nm].term, fresh, r.term, none_val), "B")
             vs = [self.truth(self.expr(x, env)) for x in e.values]
             is_and = isinstance(e.op, ast.And)
             out = vs[-1]
@@ -285,6 +311,9 @@ class Tr(object):
             if hi is not None:
                 t = "(firstn %d %s)" % (hi.value - a, t)
             return V(t, "CHARS")
+        if isinstance(e, ast.Subscript) and ast.unparse(e.value) == "self._comps" and self.kind == "ical" \
+                and isinstance(e.slice, ast.Constant) and e.slice.value == 0:
+            return V("(match nth_error cs 0 with Some c_ => Ok c_ | None => Err 3 end)", "COMP", False)
         if isinstance(e, ast.Subscript):
             base = self.expr(e.value, env)
             if base.ty == "CHARS" and base.pure and isinstance(e.slice, ast.Constant) and e.slice.value == 0:
@@ -547,7 +576,7 @@ class Tr(object):
                     add("@" + ast.unparse(s.target))
                 elif isinstance(s.target, ast.Subscript):
                     add("kw_" + s.target.slice.value)
-            elif isinstance(s, ast.If):
+            elif isinstance(s, (ast.If, ast.For)):
                 for n in self.assigned(s.body) + self.assigned(s.orelse):
                     add(n)
         return out
@@ -578,6 +607,8 @@ class Tr(object):
             return V(v.term, "Z", v.pure)
         if rt == v.ty:
             return v
+        if rt == "COMP" and v.ty == "OCOMP" and v.pure:
+            return V("(match %s with Some c_ => Ok c_ | None => Err EType end)" % v.term, "COMP", False)
         raise TranslateError("return of %s where %s is declared" % (v.ty, rt))
 
     def block(self, stmts, env, k):
@@ -632,7 +663,57 @@ class Tr(object):
             return self.assign(s.target, ast.BinOp(left=load, op=op, right=s.value), rest, env, k)
         if isinstance(s, ast.If):
             return self.if_(s, rest, env, k)
+        if isinstance(s, ast.For):
+            return self.for_(s, rest, env, k)
         raise TranslateError("statement %s" % type(s).__name__)
+
+    def for_(self, s, rest, env, k):
+        if not (isinstance(s.target, ast.Name) and ast.unparse(s.iter) == "self._comps" and self.kind == "ical"):
+            raise TranslateError("for loop over %s" % ast.unparse(s.iter))
+        x = cn(s.target.id)
+        envb = dict(env)
+        envb[s.target.id] = V(x, "COMP")
+        # (1) search loop:  for x in xs: if C(x): v = x; break   else: v = e
+        if len(s.body) == 1 and isinstance(s.body[0], ast.If) and not s.body[0].orelse and len(s.body[0].body) == 2 \
+                and isinstance(s.body[0].body[1], ast.Break) and isinstance(s.body[0].body[0], ast.Assign) \
+                and isinstance(s.body[0].body[0].targets[0], ast.Name) and ast.unparse(s.body[0].body[0].value) == s.target.id \
+                and len(s.orelse) == 1 and isinstance(s.orelse[0], ast.Assign) \
+                and ast.unparse(s.orelse[0].targets[0]) == s.body[0].body[0].targets[0].id:
+            var = s.body[0].body[0].targets[0].id
+            c = self.truth(self.expr(s.body[0].test, envb))
+            if not c.pure:
+                raise TranslateError("impure loop condition")
+            other = self.expr(s.orelse[0].value, env)
+            if other.ty != "COMP" or env.get(var, V("", "")).ty != "OCOMP":
+                raise TranslateError("search loop types")
+            env2 = dict(env)
+            env2[var] = V(cn(var), "OCOMP")
+            inner = self.block(rest, env2, k)
+            found = "(match find (fun %s => %s) cs with Some f_ => Ok (Some f_) | None => %s end)" % (
+                x, c.term, "(rbind %s (fun o_ => Ok (Some o_)))" % self.lift(other))
+            return V("(rbind %s (fun %s => %s))" % (found, cn(var), self.lift(inner)), inner.ty, False)
+        # (2) accumulation loop: no break / else; variables defined before the loop are carried
+        if s.orelse or any(isinstance(n, (ast.Break, ast.Continue, ast.Return)) for n in ast.walk(s)):
+            raise TranslateError("loop shape")
+        carried = [n for n in self.assigned(s.body) if n in env]
+        if not carried:
+            raise TranslateError("loop without carried variables")
+
+        def tup(env_):
+            return V("(" + ", ".join(env_[n].term for n in carried) + ")" if len(carried) > 1 else env_[carried[0]].term, "JOIN")
+        for n in carried:
+            envb[n] = V(cn(n), env[n].ty)
+        body = self.block(s.body, envb, tup)
+        if not body.pure:
+            raise TranslateError("impure loop body")
+        pat = "'(" + ", ".join(cn(n) for n in carried) + ")" if len(carried) > 1 else cn(carried[0])
+        init = "(" + ", ".join(env[n].term for n in carried) + ")" if len(carried) > 1 else env[carried[0]].term
+        env2 = dict(env)
+        for n in carried:
+            env2[n] = V(cn(n), env[n].ty)
+        inner = self.block(rest, env2, k)
+        return V("(let %s := fold_left (fun %s %s => %s) cs %s in %s)" % (pat, pat, x, body.term, init, inner.term),
+                 inner.ty, inner.pure)
 
     def let(self, name, v, body):
         """let name := v in body(V for name)"""
@@ -696,6 +777,14 @@ class Tr(object):
                 return self.let(cn(key), v, lambda: self.block(rest, env2, k))
             return self.let(cn(key), v, lambda: self.block(rest, env2, k))
         v = self.expr(value, env)
+        if isinstance(target, ast.Name) and target.id in LOCAL_HINTS:
+            want = LOCAL_HINTS[target.id]
+            if v.ty == "NONE":
+                v = V("None", want)
+            elif (want, v.ty) in (("ODT", "DT"), ("ODT", "DTF"), ("OCOMP", "COMP")):
+                v = V("(Some %s)" % v.term, want, v.pure)
+            elif v.ty != want:
+                raise TranslateError("%s = %s" % (target.id, v.ty))
         if isinstance(target, ast.Tuple) and len(target.elts) == 2 and all(isinstance(x, ast.Name) for x in target.elts):
             a, b = cn(target.elts[0].id), cn(target.elts[1].id)
             env2 = dict(env)
@@ -863,6 +952,18 @@ class Tr(object):
             return V(body(c.term), a.ty, False)
         return V("(rbind %s (fun c_ => %s))" % (c.term, body("c_")), a.ty, False)
 
+    def select_slice(self, fn):
+        """_find_comp = [single-component shortcut] dt = ...; try: with lock: return <hit>; except ValueError: pass;
+        <SELECTION>; with lock: <insert>; return lastcomp.  Only <SELECTION> (+ the return) is translated here."""
+        b = [x for x in fn.body if not (isinstance(x, ast.Expr) and isinstance(x.value, ast.Constant))]
+        ok = (len(b) >= 6 and isinstance(b[0], ast.If) and ast.unparse(b[0].test) == "len(self._comps) == 1"
+              and isinstance(b[1], ast.Assign) and ast.unparse(b[1]) == "dt = dt.replace(tzinfo=None)"
+              and isinstance(b[2], ast.Try) and len(b[2].body) == 1 and isinstance(b[2].body[0], ast.With)
+              and isinstance(b[-2], ast.With) and isinstance(b[-1], ast.Return) and ast.unparse(b[-1].value) == "lastcomp")
+        if not ok:
+            raise TranslateError("_find_comp no longer has the shape shortcut / hit / selection / insert / return")
+        return [b[1]] + b[3:-2] + [b[-1]]
+
     # ---------------------------------------------------------------- a method
     def translate(self, fn):
         self.tmp = []
@@ -896,7 +997,10 @@ class Tr(object):
                     raise TranslateError("__init__ does not set %r" % missing)
                 return V("(mkZone %s)" % " ".join(env_["@self." + f_].term for f_ in ZONE_FIELDS), "ZONE")
             raise TranslateError("a path falls off the end of the method (implicit return None)")
-        body = self.block(fn.body, env, fall)
+        stmts = fn.body
+        if self.name == "_find_comp":
+            stmts = self.select_slice(fn)
+        body = self.block(stmts, env, fall)
         rty = COQTY[self.ret_ty]
         return "Definition %s %s : %s :=\n  %s." % (self.coq, " ".join(binders),
                                                    rty if body.pure else "res (%s)" % rty, body.term), body.pure
@@ -937,7 +1041,7 @@ def lock_discipline(tree):
 HEADER = ["(* GENERATED by harness/gen_posix.py from /repo/src/dateutil -- do not edit. *)",
           "From Coq Require Import ZArith List Bool.",
           "From V Require Import base.Cal posix.PTime posix.RDelta posix.TzParseModel posix.TzRangeModel",
-          "     posix.PosixSpec posix.TzLocalModel posix.IcalModel posix.PosixGenBase.",
+          "     posix.PosixSpec posix.TzLocalModel posix.IcalModel posix.IcalConcModel posix.PosixGenBase.",
           "Import ListNotations.", "Open Scope Z_scope.", ""]
 
 
@@ -976,6 +1080,62 @@ def main():
     except (TranslateError, KeyError) as ex:
         failed.append("lock discipline: %s" % ex)
         out.append("(* TRANSLATE-ERROR lock discipline: %s *)" % ex)
+    # _find_comp: the cache hit expression and the insert block, over the two parallel lists
+    try:
+        fn = find_method(trees[os.path.join(REPO, "src", "dateutil", "tz/tz.py")], "_tzicalvtz", "_find_comp")
+        b = [x for x in fn.body if not (isinstance(x, ast.Expr) and isinstance(x.value, ast.Constant))]
+        tryst = [x for x in b if isinstance(x, ast.Try)]
+        if len(tryst) != 1 or len(tryst[0].handlers) != 1 or ast.unparse(tryst[0].handlers[0].type) != "ValueError" \
+                or not (len(tryst[0].handlers[0].body) == 1 and isinstance(tryst[0].handlers[0].body[0], ast.Pass)):
+            raise TranslateError("try/except ValueError: pass expected around the cache hit")
+        w = tryst[0].body[0]
+        hit = w.body[0] if isinstance(w, ast.With) and len(w.body) == 1 else w
+        want_hit = "return self._cachecomp[self._cachedate.index((dt, self._fold(dt)))]"
+        if ast.unparse(hit) != want_hit:
+            raise TranslateError("cache hit is not `%s`" % want_hit)
+        out.append("(* _find_comp, hit path: %s  (ValueError of list.index -> miss) *)" % want_hit[7:])
+        out.append("Definition gen_cache_hit (dates : list (Z * bool)) (comps : list comp) (dt : Z) (dt_fold : bool)"
+                   " : option comp :=\n  match index_of dates (dt, dt_fold) 0 with Some i_ => nth_error comps i_ | None => None end.")
+        out.append("")
+        ins = b[-2]
+        if not isinstance(ins, ast.With):
+            raise TranslateError("insert block")
+        names = {"self._cachedate": "dates", "self._cachecomp": "comps"}
+        lines = []
+
+        def listop(st):
+            if isinstance(st, ast.Expr) and isinstance(st.value, ast.Call) and isinstance(st.value.func, ast.Attribute):
+                tgt = ast.unparse(st.value.func.value)
+                if tgt in names and st.value.func.attr == "insert" and len(st.value.args) == 2 and \
+                        isinstance(st.value.args[0], ast.Constant) and st.value.args[0].value == 0:
+                    arg = ast.unparse(st.value.args[1])
+                    val = {"(dt, self._fold(dt))": "(dt, dt_fold)", "lastcomp": "lastcomp"}.get(arg)
+                    if val is None:
+                        raise TranslateError("inserted value %s" % arg)
+                    return "let %s := %s :: %s in " % (names[tgt], val, names[tgt])
+                if tgt in names and st.value.func.attr == "pop" and not st.value.args:
+                    return "let %s := removelast %s in " % (names[tgt], names[tgt])
+            raise TranslateError("cache statement %s" % ast.unparse(st))
+        text = ""
+        for st in ins.body:
+            if isinstance(st, ast.If) and not st.orelse:
+                t = st.test
+                if not (isinstance(t, ast.Compare) and len(t.ops) == 1 and isinstance(t.ops[0], ast.Gt)
+                        and ast.unparse(t.left) == "len(self._cachedate)" and isinstance(t.comparators[0], ast.Constant)
+                        and isinstance(t.comparators[0].value, int)):
+                    raise TranslateError("cache size test %s" % ast.unparse(t))
+                inner = "".join(listop(x) for x in st.body)
+                text += "let '(dates, comps) := if (%d <? length dates)%%nat then (%s(dates, comps)) else (dates, comps) in " % (
+                    t.comparators[0].value, inner)
+            else:
+                text += listop(st)
+        out.append("(* _find_comp, insert block under the lock *)")
+        out.append("Definition gen_cache_insert (dates : list (Z * bool)) (comps : list comp) (dt : Z) (dt_fold : bool)"
+                   " (lastcomp : comp) : list (Z * bool) * list comp :=\n  %s(dates, comps)." % text)
+        out.append("")
+    except (TranslateError, KeyError, AttributeError, IndexError) as ex:
+        failed.append("cache of _find_comp: %s" % ex)
+        out.append("(* TRANSLATE-ERROR cache of _find_comp: %s *)" % ex)
     # tzical._parse_rfc builds each component's recurrence set with rrulestr(..., compatible=True, ...):
     # compatible=True is what makes DTSTART itself an onset (the first onset of comp_daylight /
     # comp_standard in the C17 theorems)
